@@ -26,6 +26,13 @@ type c12Scenario struct {
 	R         int
 	Undamaged bool
 	Combine   bool // file faults are injected in addition to the reader's misbehaviour
+	Before    []c12Put // healthy Puts performed (in the same process) before the Put under test
+	After     []c12Put // healthy Puts performed after it, before the lookups
+}
+
+type c12Put struct {
+	ID   int
+	Data []byte
 }
 
 type c12Plan struct {
@@ -123,6 +130,43 @@ func c12Scenarios(tier string) []c12Scenario {
 			for _, r := range rs {
 				out = append(out, c12Scenario{Name: fmt.Sprintf("trimmed-output-diff2@%d/id%d/%s", r, id, tag), Pre: pre,
 					ID: id, Data: d, Reader: "diff2", R: r, Undamaged: true, Combine: true})
+			}
+		}
+	}
+	// overwriting an action whose previous output was EMPTY (short index writes then mix the new
+	// output id with the old size 0)
+	for _, d := range sizes {
+		if len(d) == 0 || len(d) > 5000 {
+			continue
+		}
+		e := []byte{}
+		out = append(out, c12Scenario{Name: fmt.Sprintf("overwrite-empty/size%d", len(d)), ID: 0, Data: d, Undamaged: true, Pre: map[string][]byte{
+			"a:" + idHex(0): entryBytes(0, e, 1700000000000000010), "d:" + outHex(e): e}})
+	}
+	// three Puts in one process: a pre-damaged output of the right size is repaired by a healthy
+	// Put; then a Put of the same output for another id whose source changes on the second pass
+	for _, d := range sizes {
+		if len(d) < 2 || len(d) > 5000 {
+			continue
+		}
+		flip := append([]byte{}, d...)
+		flip[len(d)/2] ^= 4
+		for _, r := range []int{0, len(d) - 1} {
+			out = append(out, c12Scenario{Name: fmt.Sprintf("repaired-then-diff2@%d/size%d", r, len(d)), ID: 0, Data: d, Reader: "diff2", R: r, Undamaged: true,
+				Pre:    map[string][]byte{"a:" + idHex(1): entryBytes(1, d, 1700000000000000011), "d:" + outHex(d): flip},
+				Before: []c12Put{{1, d}}})
+		}
+	}
+	// two Puts: the first, from a source that changes on the second pass, is stopped at every
+	// operation; the second is healthy and must leave exactly the data
+	for _, d := range sizes {
+		if len(d) < 2 || (len(d) > 50000 && tier != "thorough") {
+			continue
+		}
+		for _, r := range []int{0, len(d) / 2} {
+			for _, aid := range []int{0, 1} {
+				out = append(out, c12Scenario{Name: fmt.Sprintf("diff2@%d-stopped-then-healthy-id%d/size%d", r, aid, len(d)), ID: 0, Data: d, Reader: "diff2", R: r,
+					Undamaged: true, Combine: true, Pre: map[string][]byte{}, After: []c12Put{{aid, d}}})
 			}
 		}
 	}
@@ -278,6 +322,27 @@ type c12Outcome struct {
 // runCase executes scenario sc under plan (nil: no file fault) on the real code and on the model.
 func (rn *c12Runner) runCase(sc *c12Scenario, plan *c12Plan, pre []wLookup, compareModel bool) (out c12Outcome) {
 	rn.materialize(sc.Pre)
+	healthy := func(ps []c12Put) (tms []int64, ok bool) {
+		for _, bp := range ps {
+			r, err := rn.w.call(map[string]any{"cmd": "put", "id": idHex(bp.ID), "data": hex.EncodeToString(bp.Data)})
+			if err != nil {
+				return nil, false
+			}
+			for _, o := range r.Log {
+				rn.touched[o.Path] = true
+			}
+			if r.Res != "ok" && out.impl == "" {
+				out.impl, out.oname = fmt.Sprintf("a healthy Put(id%d) of the history failed: %s", bp.ID, r.Err), "healthy-put-failed"
+			}
+			tms = append(tms, entryTm(r.Log))
+		}
+		return tms, true
+	}
+	beforeTm, okb := healthy(sc.Before)
+	if !okb {
+		out.corr = "worker failed"
+		return
+	}
 	req := map[string]any{"cmd": "put", "id": idHex(sc.ID), "data": hex.EncodeToString(sc.Data), "reader": sc.Reader, "r": sc.R}
 	if plan != nil {
 		req["plan"] = map[string]any{"k": plan.K, "kind": plan.Kind, "j": plan.J}
@@ -290,6 +355,11 @@ func (rn *c12Runner) runCase(sc *c12Scenario, plan *c12Plan, pre []wLookup, comp
 	out.log, out.nops, out.res = resp.Log, len(resp.Log), resp.Res
 	for _, o := range resp.Log {
 		rn.touched[o.Path] = true
+	}
+	afterTm, oka := healthy(sc.After)
+	if !oka {
+		out.corr = "worker failed"
+		return
 	}
 	if resp.Res == "panic" {
 		out.impl, out.oname = "Put panicked: "+resp.Err, "no-panic"
@@ -342,6 +412,9 @@ func (rn *c12Runner) runCase(sc *c12Scenario, plan *c12Plan, pre []wLookup, comp
 		keysSet["a:"+idHex(i)] = true
 	}
 	keysSet["d:"+outHex(sc.Data)] = true
+	for _, bp := range append(append([]c12Put{}, sc.Before...), sc.After...) {
+		keysSet["d:"+outHex(bp.Data)] = true
+	}
 	var keys []string
 	for k := range keysSet {
 		keys = append(keys, k)
@@ -377,6 +450,19 @@ func (rn *c12Runner) runCase(sc *c12Scenario, plan *c12Plan, pre []wLookup, comp
 			}
 		}
 		reqs = append(reqs, fmt.Sprintf("dmg write %s %s %s", k[:1], k[2:], rn.m.ref(c)))
+	}
+	honestReq := func(bp c12Put, tm int64) string {
+		if hr := rn.m.hashReq(bp.Data); hr != "" {
+			reqs = append(reqs, hr)
+		}
+		var cr []string
+		for _, c := range chunk32k(bp.Data, len(bp.Data)-1) {
+			cr = append(cr, rn.m.ref(c))
+		}
+		return fmt.Sprintf("putf -1 fail 0 %s %d 1 1 %s 1 %s", idHex(bp.ID), tm, rn.m.ref(bp.Data), strings.Join(cr, " "))
+	}
+	for i, bp := range sc.Before {
+		reqs = append(reqs, honestReq(bp, beforeTm[i]))
 	}
 	nSetup := len(reqs)
 	// reader description
@@ -423,6 +509,14 @@ func (rn *c12Runner) runCase(sc *c12Scenario, plan *c12Plan, pre []wLookup, comp
 	}
 	reqs = append(reqs, fmt.Sprintf("putf %d %s %d %s %d %d %d %s %d %s", k, kind, j, idHex(sc.ID), entryTm(resp.Log), seek1, ok1,
 		rn.m.ref(pass1), seek2, strings.Join(crefs, " ")))
+	// the healthy Puts that follow (their hash values are supplied on demand)
+	for i, ap := range sc.After {
+		var cr []string
+		for _, c := range chunk32k(ap.Data, len(ap.Data)-1) {
+			cr = append(cr, rn.m.ref(c))
+		}
+		reqs = append(reqs, fmt.Sprintf("putf -1 fail 0 %s %d 1 1 %s 1 %s", idHex(ap.ID), afterTm[i], rn.m.ref(ap.Data), strings.Join(cr, " ")))
+	}
 	for _, id := range allIDs {
 		reqs = append(reqs, "get "+id, "getbytes "+id, "getfile "+id)
 	}
@@ -436,7 +530,7 @@ func (rn *c12Runner) runCase(sc *c12Scenario, plan *c12Plan, pre []wLookup, comp
 	}
 	// result and trace
 	if i := strings.LastIndex(ans[nSetup], " | holds="); i >= 0 {
-		if ans[nSetup][i+9:] != "true" {
+		if ans[nSetup][i+9:] != "true" && !(sc.Combine && plan != nil) { // two faults at once are outside the statement
 			out.corr = "the boolean form c12_holds_on of the C12 statement is " + ans[nSetup][i+9:] + " on this case (model level)"
 			return
 		}
@@ -469,7 +563,7 @@ func (rn *c12Runner) runCase(sc *c12Scenario, plan *c12Plan, pre []wLookup, comp
 		return
 	}
 	// lookups
-	p := nSetup + 1
+	p := nSetup + 1 + len(sc.After)
 	for i := range allIDs {
 		l := lk.Lookups[i]
 		for q, pair := range [][2]string{{l.Get, canonModel(ans[p], false)}, {l.GetBytes, canonModel(ans[p+1], true)}, {l.GetFile, canonModel(ans[p+2], true)}} {
@@ -642,6 +736,13 @@ func runC12(f *common.Flags, res *common.Result, m *mdl) {
 		big := len(sc.Data) > 50000
 		// lookups of the pre-state (for the frame oracle)
 		rn.materialize(sc.Pre)
+		for _, bp := range sc.Before {
+			if r, err := w.call(map[string]any{"cmd": "put", "id": idHex(bp.ID), "data": hex.EncodeToString(bp.Data)}); err == nil {
+				for _, o := range r.Log {
+					rn.touched[o.Path] = true
+				}
+			}
+		}
 		var pre []wLookup
 		if lk, err := w.call(map[string]any{"cmd": "lookups", "ids": []string{idHex(0), idHex(1), idHex(2), idHex(3)}}); err == nil {
 			pre = lk.Lookups
@@ -675,7 +776,12 @@ func runC12(f *common.Flags, res *common.Result, m *mdl) {
 			}
 			switch op.Name {
 			case "write":
-				for _, j := range []int{0, 1, op.N / 2, op.N - 1} {
+				js := []int{0, 1, op.N / 2, op.N - 1}
+				if strings.HasSuffix(op.Path, "-a") {
+					// inside the id, inside the output id, right after it, inside the size and the time fields
+					js = append(js, 40, 100, 132, 133, 140, 150, 153, 160)
+				}
+				for _, j := range js {
 					if j >= 0 && j < op.N {
 						plans = append(plans, c12Plan{k, "short", j}, c12Plan{k, "torn", j})
 					}
